@@ -514,7 +514,8 @@ def months_inc(start_date, months, eomonth=False):
     if not (0 <= start_date < DATE_MAX_INT):
         return NUM_ERROR
     y, m, d = date_from_int(start_date)
-    y, m, _ = normalize_year(y, m + months, 1)
+    # a fraction of a month is dropped
+    y, m, _ = normalize_year(y, m + int(months), 1)
     if y < 1900:
         return NUM_ERROR
     # a day the target month does not have becomes its last day
